@@ -401,5 +401,6 @@ def custom_replay(pid, path, repo, verif, work, goenv, log):
 
 NOT_APPLICABLE = {}
 EXTRA_ENGINES = [{"name": "cfuzz-libfuzzer", "path": "/verif/cfuzz", "serves_properties": ["C02", "C05", "C07", "C08", "C09"], "kind_free_text": "libFuzzer targets (clang -fsanitize=fuzzer,address,undefined) compiled against /repo's own C sources with in-target semantic oracles (canonical round trip, BLST ZCash differential, element-wise recomputation); pinned -seed/-runs in the quick tier, time-boxed forks in the thorough tier"},
+                 {"name": "gofuzz-native", "path": "/verif/harness/props/gofuzz_test.go", "serves_properties": GOFUZZ_PROPS, "kind_free_text": "Go's native coverage-guided fuzzer (go test -fuzz) driving the same rapid property functions through rapid.MakeFuzz (thorough tier only; a campaign cannot be pinned to VERIF_SEED, the saved failing record is the reproducible unit)"},
                  {"name": "overlay-inpackage", "path": "/verif/harness/inpkg", "serves_properties": ["C15"], "kind_free_text": "in-package exhaustive tape enumeration injected with go test -overlay"},
                  {"name": "cfgworker", "path": "/verif/harness/cfgworker", "serves_properties": ["C20"], "kind_free_text": "worker program built in four build configurations, driven by a rapid differential property"}]
